@@ -189,6 +189,9 @@ func cmdVerify(args []string) {
 	}
 	if bad > 0 {
 		fmt.Printf("%d problems\n", bad)
+		if !*keep {
+			os.RemoveAll(scratch)
+		}
 		os.Exit(1)
 	}
 	fmt.Println("all ok")
